@@ -214,6 +214,20 @@ theorem decoded_object_is_welltyped (ms : ML) (inp : List Int) (v : VL) (ex : Bo
     exact decOs_wt ms inp vs r hi h
   · simp at hd
 
+/-- A snapshot object decoder accepts exactly `int_size` integers without "excess data": what it
+consumes is the size that `obj_size` reports for the type (`tie_obj_size`). -/
+theorem decoded_object_consumes_obj_size (ms : ML) (inp : List Int) (v : VL) (hwf : wfOs ms = true)
+    (hd : decodeObjMembers ms inp = .ok v false) : inp.length = intSize ms := by
+  unfold decodeObjMembers at hd
+  split at hd
+  · rename_i vs r h
+    simp at hd
+    have := decOs_len ms inp vs r hwf h
+    have hr : r = [] := by cases r <;> simp_all
+    subst hr
+    simpa using this
+  · simp at hd
+
 /-- The full statement for snapshot objects ("re-exposed as the same words"): the words an object
 was decoded from are what `encode` returns.  It does not hold for objects with boolean members
 (open finding D25, `obj_bool_witness`). -/
